@@ -85,6 +85,8 @@ def lower_targets(spec, failed=None):
             missed = []
             if t.pre_rules:
                 body, _ = X.apply_rules(body, t.pre_rules, what=t.name, missed=missed)
+            if t.scoped:
+                body = X.lower_block_scoped(body, what=t.name, **t.scoped)
             if t.defers:
                 body = X.lower_defers(body, what=t.name, **t.defers)
             rules = (X.COMMON_RULES if t.common else []) + t.rules
@@ -494,6 +496,7 @@ def main():
     kf = known_findings(pid)
     violations = []      # (obligation, replay path, note)
     known_hit = []
+    known_obl = set()      # (proof, obligation) pairs listed in known_findings.txt: reported separately, not counted as obligations of the proof claim
     for r in results:
         if r.status in ('error', 'timeout', 'vacuous'):
             undecided.append('%s: %s %s' % (r.proof.name, r.status, r.note))
@@ -542,9 +545,10 @@ def main():
         remaining = []
         for (n, dsc) in obl_all:
             oname = '%s/%s/%s' % (pid, r.proof.name, n)
-            hit = [x for x in kf if re.search(x[0], oname)]
+            hit = [x for x in kf if re.search(x[0], oname + ' ' + dsc)]     # key: regex over '<pid>/<proof>/<obligation> <description>'
             if hit:
                 known_hit.append(hit[0])
+                known_obl.add((r.proof.name, n))
             else:
                 remaining.append((n, dsc))
         if not remaining:
@@ -601,8 +605,9 @@ def main():
     # ---------------- evidence
     U = [r for r in results if r.proof.kind in ('U', 'L')]
     B = [r for r in results if r.proof.kind == 'B']
-    n_obl = sum(len([p for p in r.props if 'CANARY' not in p[1]]) for r in U)
-    n_dis = sum(len([p for p in r.props if 'CANARY' not in p[1] and p[2] == 'SUCCESS']) for r in U)
+    # obligations listed as known findings are reported under known_finding_obligations and are not part of the proof claim
+    n_obl = sum(len([p for p in r.props if 'CANARY' not in p[1] and (r.proof.name, p[0]) not in known_obl]) for r in U)
+    n_dis = sum(len([p for p in r.props if 'CANARY' not in p[1] and p[2] == 'SUCCESS' and (r.proof.name, p[0]) not in known_obl]) for r in U)
     samples = []
     for r in U[:40]:
         ps = [p for p in r.props if 'CANARY' not in p[1]]
@@ -647,6 +652,7 @@ def main():
             undecided=undecided,
             lowering_rules_not_fired=[m for t in spec.TARGETS if t.name in lowered for m in lowered[t.name].get('missed', [])],
             known_findings=[k for k, _ in known_hit],
+            known_finding_obligations=sorted('%s/%s' % x for x in known_obl),
         ),
         assumptions=assumptions,
         wall_s=round(time.time() - t0, 2),
